@@ -321,6 +321,13 @@ func (bucket *Bucket) dropCollection(name sgbucket.DataStoreNameImpl) error {
 	if c := bucket.collections[name]; c != nil {
 		c.close()
 		delete(bucket.collections, name)
+	} else {
+		// this handle has not opened the collection; its feeds, started through other handles, are in the map
+		// all handles share, and go with the collection all the same
+		for _, feed := range bucket.collectionFeeds[name] {
+			feed.close()
+		}
+		delete(bucket.collectionFeeds, name)
 	}
 
 	_, err := bucket._db().Exec(`DELETE FROM collections WHERE scope=? AND name=?`, name.ScopeName(), name.CollectionName())
